@@ -35,10 +35,13 @@ func NewSolver(bin string, args ...string) *Solver {
 		panic(err)
 	}
 	s := &Solver{cmd: cmd, in: in, out: bufio.NewReader(out), declared: map[string]Sort{}, defined: map[int]bool{}}
-	s.send("(set-option :print-success false)")
 	s.send("(set-option :produce-models true)")
 	s.send("(set-option :global-declarations true)")
-	s.send(fmt.Sprintf("(set-option :timeout %d)", QueryTimeoutMs))
+	if !strings.Contains(bin, "cvc5") {
+		// (cvc5 answers "unsupported" to these; its limit is passed as --tlimit-per)
+		s.send("(set-option :print-success false)")
+		s.send(fmt.Sprintf("(set-option :timeout %d)", QueryTimeoutMs))
+	}
 	return s
 }
 
